@@ -35,7 +35,12 @@
 //!                                     v = 4a + b), `key` (struct ordered by its key only, carrying a tag; the multiset of
 //!                                     (key, tag) objects must be preserved), `unit` (Vec<()>), `drop` (counts clones and
 //!                                     drops: nothing leaked, nothing dropped twice), `arr` ([i64; N] for N <= 6 / boxed slice)
-//!   `ipg <kind> <lim> d..`           = `ip` with element type `u8|str|tup|drop`
+//!   `ipg <kind> <lim> d..`           = `ip` with element type `u8|str|tup|drop`, `key` / `keym` (the struct ordered by its key
+//!                                     only, every element with its own tag; `keym` through the protocol checks of `ipm`) and
+//!                                     `ci` (strings compared case-insensitively, every element spelled with its own
+//!                                     capitalisation): every yielded vector must be a rearrangement of the input OBJECTS
+//!                                     (same multiset of (key, tag) / exact spellings: objects are moved or cloned as a
+//!                                     whole, never rebuilt from an equal element), else `F objects-<n>`
 //!   `npsub <a> <b> v..`              = `np` on `v[a..b]` through `next_permutation(&mut v[a..b])`; the elements outside
 //!                                     the range must not change; prints `R <0|1> v[a..b]`
 use rlib_iter::*;
@@ -504,6 +509,54 @@ impl Ord for Counted {
     }
 }
 
+/// compared without regard to case; the exact spelling identifies the object
+#[derive(Clone, Debug)]
+struct Ci(String);
+impl Ci {
+    /// element number `i` with value `v`: five letters whose capitalisation spells `i` in binary, then the value
+    fn new(i: usize, v: i64) -> Self {
+        let pre: String = "abcde".chars().enumerate().map(|(b, ch)| if i >> b & 1 == 1 { ch.to_ascii_uppercase() } else { ch }).collect();
+        Ci(format!("{}{:05}", pre, v))
+    }
+    fn value(&self) -> String {
+        self.0[5..].parse::<i64>().map_or("?".to_string(), |n| n.to_string())
+    }
+}
+impl PartialEq for Ci {
+    fn eq(&self, o: &Self) -> bool {
+        self.0.to_lowercase() == o.0.to_lowercase()
+    }
+}
+impl Eq for Ci {}
+impl PartialOrd for Ci {
+    fn partial_cmp(&self, o: &Self) -> Option<Ordering> {
+        Some(self.cmp(o))
+    }
+}
+impl Ord for Ci {
+    fn cmp(&self, o: &Self) -> Ordering {
+        lower(self).cmp(&lower(o))
+    }
+}
+fn lower(c: &Ci) -> String {
+    c.0.to_lowercase()
+}
+
+/// every yielded vector holds exactly the input objects (`id` = everything that distinguishes two objects, including
+/// what `==` ignores); the index of the first offending item otherwise
+fn same_objects<T, K: Ord>(input: &[T], items: &[Vec<T>], id: &dyn Fn(&T) -> K) -> Result<(), String> {
+    let mut want: Vec<K> = input.iter().map(|x| id(x)).collect();
+    want.sort();
+    for (n, item) in items.iter().enumerate() {
+        let mut got: Vec<K> = item.iter().map(|x| id(x)).collect();
+        got.sort();
+        if got != want {
+            return Err(format!("objects-{}", n));
+        }
+    }
+    Ok(())
+}
+
 fn to_str(v: i64) -> String {
     format!("{:05}", v)
 }
@@ -603,6 +656,33 @@ fn ipg(t: &[&str]) -> String {
         "str" => perm_line(iter_permutations(d.iter().map(|&x| to_str(x)).collect::<Vec<String>>()).take(lim).collect(),
                            &|x| x.parse::<i64>().map_or("?".to_string(), |n| n.to_string())),
         "tup" => perm_line(iter_permutations(d.iter().map(|&x| to_tup(x)).collect::<Vec<(i32, i32)>>()).take(lim).collect(), &of_tup),
+        "key" | "keym" => {
+            let v: Vec<Keyed> = d.iter().enumerate().map(|(i, &x)| Keyed { key: x, tag: i as u32 }).collect();
+            let items: Vec<Vec<Keyed>> = if t[1] == "key" {
+                iter_permutations(v.clone()).take(lim).collect()
+            } else {
+                match protocol(&|| iter_permutations(v.clone()), lim, 1) {
+                    Ok(items) => items,
+                    Err(e) => return format!("F {}", e),
+                }
+            };
+            if let Err(e) = same_objects(&v, &items, &|k| (k.key, k.tag)) {
+                return format!("F {}", e);
+            }
+            // the input vector itself is still what it was (the iterator owns its own copy)
+            if v.iter().enumerate().any(|(i, k)| k.key != d[i] || k.tag != i as u32) {
+                return "F input-changed".into();
+            }
+            perm_line(items, &|x| x.key.to_string())
+        }
+        "ci" => {
+            let v: Vec<Ci> = d.iter().enumerate().map(|(i, &x)| Ci::new(i, x)).collect();
+            let items: Vec<Vec<Ci>> = iter_permutations(v.clone()).take(lim).collect();
+            if let Err(e) = same_objects(&v, &items, &|c| c.0.clone()) {
+                return format!("F {}", e);
+            }
+            perm_line(items, &|x| x.value())
+        }
         "drop" => {
             let live = Rc::new(Cell::new(0i64));
             let drops = Rc::new(Cell::new(0i64));
